@@ -259,11 +259,16 @@ func (m *Muxer) validate() error {
 	if len(m.frames) == 0 {
 		return ErrNoFrames
 	}
-	// A metadata blob above the readers' limit would be written as a file
-	// nobody can read back.
+	// Metadata blobs above the readers' limit and payloads that do not fit a
+	// 32-bit chunk size would be written as files nobody can read back.
 	for _, md := range [][]byte{m.iccData, m.exifData, m.xmpData} {
 		if len(md) > maxMetadataSize {
 			return fmt.Errorf("%w: metadata chunk of %d bytes exceeds the %d byte limit", ErrMuxValidation, len(md), maxMetadataSize)
+		}
+	}
+	for i, f := range m.frames {
+		if uint64(len(f.data)) > uint64(container.MaxChunkPayload)-uint64(container.RIFFHeaderSize) {
+			return fmt.Errorf("%w: frame %d data of %d bytes does not fit a RIFF chunk", ErrMuxValidation, i, len(f.data))
 		}
 	}
 	animated := m.isAnimated()
